@@ -438,6 +438,14 @@ func (fr *Frame) findLoops() {
 	if fr.spec != nil {
 		for _, c := range fr.spec.Loops {
 			matched := false
+			if c.Key == "*" {
+				for _, li := range ordered {
+					if c.Kind == "inv" {
+						li.invs = append(li.invs, c)
+					}
+				}
+				continue
+			}
 			for _, li := range ordered {
 				for _, k := range li.key {
 					if k == c.Key {
@@ -542,13 +550,21 @@ func (e *Engine) merge(ins []edgeIn) *State {
 }
 
 func (e *Engine) totalHavoc(st *State) *State {
+	return e.totalHavocG(st, true)
+}
+
+// keepGhosts: ghost protocol state (locks held, open transaction, unsynced files) is only changed by callees
+// whose contract says so; code without a contract is assumed not to touch it (assumption, listed)
+func (e *Engine) totalHavocG(st *State, keepGhosts bool) *State {
 	e.sc.n++
 	n := &State{comps: map[string]string{}, base: fmt.Sprintf("h%d", e.sc.n)}
-	// the lock state of the executing thread survives calls to unknown code (assumption, listed)
 	for c := range e.compSort {
-		if e.isLockGhost(c) {
+		if e.isLockGhost(c) || keepGhosts && strings.HasPrefix(c, "ghost$") {
 			n.comps[c] = e.get(st, c)
 		}
+	}
+	if keepGhosts {
+		e.assume("callees without a contract do not change ghost protocol state (locks held, open transaction, unsynced file data)")
 	}
 	// local variables whose address never reaches unknown code keep their values
 	for _, lc := range e.localCells {
@@ -1090,7 +1106,10 @@ func (fr *Frame) checkFrame(c, addr, what string) {
 	}
 	if addr != "" && !strings.HasPrefix(c, "ghost$") {
 		alts = append(alts, "(> "+addr+" "+e.alloc0+")")
-		// derived addresses of fresh objects
+		// derived addresses (embedded structs / arrays) of fresh objects
+		if root := faRoot(addr); root != addr {
+			alts = append(alts, "(> "+root+" "+e.alloc0+")")
+		}
 	}
 	fr.oblige("frame", what+"("+c+")", sOr(alts...))
 }
@@ -1950,4 +1969,32 @@ func (e *Engine) closureStaysLocal(mc *ssa.MakeClosure) bool {
 		}
 	}
 	return true
+}
+
+// faRoot strips applications of fa$... functions: (fa$T$f (fa$U$g x)) -> x
+func faRoot(t string) string {
+	for {
+		if !(strings.HasPrefix(t, "(|fa$") || strings.HasPrefix(t, "(fa$")) || !strings.HasSuffix(t, ")") {
+			return t
+		}
+		// function symbol ends at the first space after an optional |...| quote
+		i := 1
+		if t[1] == '|' {
+			j := strings.Index(t[2:], "|")
+			if j < 0 {
+				return t
+			}
+			i = 2 + j + 1
+		} else {
+			j := strings.Index(t, " ")
+			if j < 0 {
+				return t
+			}
+			i = j
+		}
+		if i >= len(t) || t[i] != ' ' {
+			return t
+		}
+		t = t[i+1 : len(t)-1]
+	}
 }
